@@ -605,6 +605,41 @@ func EventGatewayShapes() []*prog.Program {
 	return out
 }
 
+// EventGatewayLoop: the gateway is activated again within one instance: the task behind
+// alternative A writes `again`; again = 1 leads back to the gateway, otherwise to the end.
+// start -> merge(xor) -> G -> [A: catch A -> tA -> decision(xor) -> merge | eA] [B: catch B -> tB -> eB]
+func EventGatewayLoop() *prog.Program {
+	b := prog.NewBuilder("evgw_loop")
+	s := b.AddNode("start", "")
+	m := b.AddNode("xor", "")
+	g := b.AddNode("evgw", "")
+	b.Connect(s, m, prog.Cond{})
+	b.Connect(m, g, prog.Cond{})
+	ca := b.AddNode("catch", "")
+	b.N(ca).Evs = sig("A")
+	ta := b.AddNode("task", "")
+	b.N(ta).Writes = []string{"again"}
+	b.P.Dom["again"] = []int{0, 1}
+	b.P.Vars0["again"] = 0
+	x := b.AddNode("xor", "")
+	ea := b.AddNode("end", "")
+	b.Connect(g, ca, prog.Cond{})
+	b.Connect(ca, ta, prog.Cond{})
+	b.Connect(ta, x, prog.Cond{})
+	b.Connect(x, m, prog.Cond{K: "eq", V: "again", C: 1})
+	d := b.Connect(x, ea, prog.Cond{})
+	b.N(x).Default = d
+	cb := b.AddNode("catch", "")
+	b.N(cb).Evs = sig("B")
+	tb := b.AddNode("task", "")
+	eb := b.AddNode("end", "")
+	b.Connect(g, cb, prog.Cond{})
+	b.Connect(cb, tb, prog.Cond{})
+	b.Connect(tb, eb, prog.Cond{})
+	b.P.Tags = append(b.P.Tags, "evgw", "alts2", "loop", "evgw-reentry")
+	return b.Done()
+}
+
 // BoundaryShapes: activities with 1..2 boundary events of either kind (C10).
 // Normal path: host -> tn -> en ; exception path of boundary i: b_i -> tx_i -> ex_i.
 func BoundaryShapes() []*prog.Program {
